@@ -462,7 +462,17 @@ func runC03(c *Ctx) {
 			}
 		})
 		sort.Slice(bom, func(i, j int) bool { return bom[i] < bom[j] })
-		if len(bom) == 2 && bom[0] == 0xBB && bom[1] == 0xBF {
+		bomString := false
+		allInstrs(ws, func(in ssa.Instruction) {
+			if bo, ok := in.(*ssa.BinOp); ok && bo.Op == token.EQL {
+				for _, o := range []ssa.Value{bo.X, bo.Y} {
+					if s, ok := constString(o); ok && s == "\xef\xbb\xbf" {
+						bomString = true
+					}
+				}
+			}
+		})
+		if bomString || len(bom) == 2 && bom[0] == 0xBB && bom[1] == 0xBF {
 			r3.OK("the BOM is EF BB BF", "")
 		} else {
 			r3.Fail(ws.Pos(), p.FuncName(ws), "BOM bytes", "the byte order mark is not matched as EF BB BF")
@@ -569,6 +579,70 @@ func runC03(c *Ctx) {
 	} else {
 		g, ok := advanceSet(p, rc, lexT, 0x10FFFF)
 		want := ivOf(0x09, 0x09, 0x20, 0x10FFFF)
+		if !ok {
+			// a scan with strings.IndexFunc: the predicate's true set is the set of characters that end the comment
+			allInstrs(rc, func(in ssa.Instruction) {
+				call, isCall := in.(*ssa.Call)
+				if !isCall || !strings.HasSuffix(calleeName(call), ".IndexFunc") || len(call.Call.Args) != 2 {
+					return
+				}
+				var pred *ssa.Function
+				switch x := call.Call.Args[1].(type) {
+				case *ssa.Function:
+					pred = x
+				case *ssa.MakeClosure:
+					pred = x.Fn.(*ssa.Function)
+				}
+				if pred == nil || len(pred.Params) != 1 || len(pred.Blocks) == 0 {
+					return
+				}
+				sets := reachSets(pred, pred.Params[0], pred.Blocks[0], ivFull(0x10FFFF))
+				var stop ivset
+				decided := true
+				for b, set := range sets {
+					if ret, isRet := b.Instrs[len(b.Instrs)-1].(*ssa.Return); isRet {
+						if cst, isC := ret.Results[0].(*ssa.Const); isC && cst.Value != nil {
+							if cst.Value.String() == "true" {
+								stop = stop.union(set)
+							}
+						} else if bo, isB := ret.Results[0].(*ssa.BinOp); isB {
+							// `return r <= 0x1f && r != '\t'` compiles to a phi or a final comparison: split on it
+							if k, okK := constNum(bo.Y); okK && sameScrutinee(bo.X, pred.Params[0]) {
+								stop = stop.union(refineSet(set, bo.Op, k, true))
+							} else {
+								decided = false
+							}
+						} else if ph, isPhi := ret.Results[0].(*ssa.Phi); isPhi {
+							for i, e := range ph.Edges {
+								ps := sets[b.Preds[i]]
+								if cst, isC := e.(*ssa.Const); isC && cst.Value != nil {
+									if cst.Value.String() == "true" {
+										stop = stop.union(ps)
+									}
+								} else if bo, isB := e.(*ssa.BinOp); isB {
+									if k, okK := constNum(bo.Y); okK && sameScrutinee(bo.X, pred.Params[0]) {
+										stop = stop.union(refineSet(ps, bo.Op, k, true))
+									} else {
+										decided = false
+									}
+								} else {
+									decided = false
+								}
+							}
+						} else {
+							decided = false
+						}
+					}
+				}
+				if decided {
+					cont := ivFull(0x10FFFF)
+					for _, x := range stop.norm() {
+						cont = cont.intersectRange(-1, x[0]-1).union(cont.intersectRange(x[1]+1, 1<<40))
+					}
+					g, ok = cont, true
+				}
+			})
+		}
 		if !ok {
 			r6.Fail(rc.Pos(), p.FuncName(rc), "comment characters not decided per character", "readComment no longer tests each character against SourceCharacter-minus-LineTerminator: a lone CR, or a control character, inside a comment is handled differently from the grammar")
 		} else {
